@@ -4,6 +4,8 @@ import io
 import json
 import os
 
+import hypothesis.strategies as st
+
 from pbt import gen, mapping, materialize, treemodel, refmodel
 from pbt.core import Case, Violation, sandbox, quiet
 from pbt.props import common
@@ -20,8 +22,20 @@ def budget(tier):
     return {'quick': 320, 'thorough': 6000}[tier]
 
 
+@st.composite
+def strategy_(draw):
+    if draw(st.integers(0, 7)) == 0:
+        # a wide taxonomy (more than 128 nodes at a level, as real taxonomies have), many runners-up
+        tree = draw(gen.trees(max_levels=2, max_leaves=200, min_leaves=130, mappers='often'))
+        spec = dict(draw(gen.map_cases(tree=tree, max_cells=6, allow_flatten=False, allow_drop=False)))
+        spec['cfg'] = dict(spec['cfg'], n_runners_up=draw(st.integers(2, 4)), bootstrap_iteration=12,
+                           bootstrap_factor=draw(st.sampled_from([0.33, 0.5])), bootstrap_factor_lookup=None)
+        return spec
+    return draw(gen.map_cases(max_cells=6, mappers='often'))
+
+
 def strategy(tier):
-    return gen.map_cases(max_cells=6, mappers='often')
+    return strategy_()
 
 
 KNOWN_TRIGGERS = common.MAP_KNOWN_TRIGGERS
@@ -163,6 +177,8 @@ def check(spec):
         classes.append('readable_hierarchy')
     if inferred:
         classes.append('inferred_level')
+    if max(len(tree[lv]) for lv in h) > 128:
+        classes.append('level_with_more_than_128_nodes')
     if cfg['bootstrap_iteration'] == 1:
         classes.append('single_iteration')
     all_names = [n for lv in h for n in tree[lv]] + [str(x) for lv in (tree.get('name_mapper') or {}).values() for e in lv.values() for x in e.values()]
